@@ -1,5 +1,6 @@
 import Hive.Proofs.C12aShrink
 import Hive.Proofs.C12aRandomMap
+import Hive.Proofs.C12aOwn
 import Hive.Proofs.C12aHeapSpec
 import Hive.Proofs.C12aHeapSign
 import Hive.Proofs.C12aQueue
@@ -257,6 +258,47 @@ example :
       [1, 0].Perm (List.range s.keys.length) := by
   refine ⟨by decide, by decide, by decide, ?_⟩
   exact List.Perm.swap 0 1 []
+
+/-! ## RandomMap — the slices handed out by `Keys()` are the caller's own (memory-level model) -/
+
+/-- **Ownership of `Keys()` answers.**  In the memory-level model (`Own`: a heap of backing arrays, `r.keys`
+as address + length, `append` growing in place or re-allocating, `Delete`'s in-place swap, `Keys()` =
+`make` + `copy`, and *callers writing into the slices they were given*) every history — container
+operations and caller writes interleaved in any order — is, cell for cell, the value-level history `Own.pfinal`:
+the key list never sees a caller's write, and an answer changes only by the writes of the caller holding it
+(not by later `Set`/`Delete`, not by writes to other answers).  This is what entitles the pure models (and
+the driver) to treat answers as values while the harness overwrites every collection it was handed. -/
+theorem C12_rmap_keys_owned (ops : List Own.Op) :
+    Own.abs (Own.final false Own.init ops) = Own.pfinal ⟨[], []⟩ ops ∧ Own.Inv (Own.final false Own.init ops) :=
+  Own.final_refines Own.init Own.inv_init ops
+
+/-- The value-level key list of `Own` is the `keys` field of the RandomMap model: a `Set` of a new key is
+`append`, a `Delete` of a key whose entry has `keyIndex = i` is `delSwap i`. -/
+theorem C12_rmap_keys_view_is_model (s : RMap.St) (k v : Nat) (outs : List (List Nat)) :
+    (AL.get s.raw k = none → (RMap.set s k v).keys = (Own.pstep ⟨s.keys, outs⟩ (.append k)).l) ∧
+    (∀ e, AL.get s.raw k = some e → e.keyIndex < s.keys.length →
+      (RMap.delete s k).1.keys = (Own.pstep ⟨s.keys, outs⟩ (.delSwap e.keyIndex)).l) := by
+  constructor
+  · intro h; simp [RMap.set, h, Own.pstep]
+  · intro e h hi
+    have hne : e.keyIndex ≠ s.keys.length := by omega
+    simp only [RMap.delete, h, Own.pstep, hi, ↓reduceIte, ne_eq, hne, not_false_eq_true]
+    simp
+
+/-- **Witness (seeded change r6-2): `Keys()` returning `r.keys[:size:size]`.**  With the aliasing variant the
+value-level history is *not* reproduced: after `Set a, Set b, Keys(), Delete a` the answer `[1, 2]` reads
+`[2, 0]`; after `Set a, Set b, Keys()` a caller writing its answer changes the container's key list. -/
+theorem C12_rmap_keys_alias_witness :
+    (Own.abs (Own.final true Own.init [.append 1, .append 2, .keys, .delSwap 0])).outs = [[2, 0]] ∧
+    (Own.pfinal ⟨[], []⟩ [.append 1, .append 2, .keys, .delSwap 0]).outs = [[1, 2]] ∧
+    (Own.abs (Own.final true Own.init [.append 1, .append 2, .keys, .write 0 0 9])).l = [9, 2] ∧
+    (Own.pfinal ⟨[], []⟩ [.append 1, .append 2, .keys, .write 0 0 9]).l = [1, 2] := by decide
+
+/-- A non-trivial history of the copying code: two answers, a re-allocation (`append` beyond the capacity), a
+swap-delete and writes of both callers; the key list and both answers are what the value-level history says. -/
+example : Own.abs (Own.final false Own.init
+      [.append 1, .append 2, .keys, .append 3, .delSwap 0, .keys, .write 0 1 7, .write 1 0 8, .append 4]) =
+    ⟨[3, 2, 4], [[1, 7], [8, 2]]⟩ := by decide
 
 /-! ## generalheap / PriorityQueue / timed.PriorityQueue — a priority multiset with handles
 
